@@ -49,6 +49,3 @@ impl L {
     #[verifier::external_body] pub fn tensor(z: &Pt, n: usize, m: usize) -> (r: (Vec<Fr>, Vec<Fr>)) ensures fviews(r.0@) == tensor_a(z, n as nat, m as nat), fviews(r.1@) == tensor_b(z, n as nat, m as nat) { unimplemented!() }
     #[verifier::external_body] pub fn point_to_vec(z: Pt) -> (r: Vec<Fr>) ensures fviews(r@) == point_vec_spec(z) { unimplemented!() }
 }
-// verifier-side indexing into prover-supplied vectors: an out-of-range index panics (= diverges)
-#[verifier::external_body] pub fn at<T>(v: &Vec<T>, i: usize) -> (r: &T) ensures i < v@.len(), *r == v@[i as int] { unimplemented!() }
-#[verifier::external_body] pub fn at_fr(v: &Vec<Fr>, i: usize) -> (r: Fr) ensures i < v@.len(), r == v@[i as int] { unimplemented!() }
